@@ -636,6 +636,21 @@ impl<'a, 'b, 'ast> Visit<'ast> for Rewriter<'a, 'b> {
                 if done {
                     return;
                 }
+                // R8: X.get(A..B).unwrap_or_default()  ->  slice_get_or_empty(&(X), A, B)
+                if name == "unwrap_or_default" && mc.args.is_empty() {
+                    if let Expr::MethodCall(g) = &*mc.receiver {
+                        if g.method == "get" && g.args.len() == 1 {
+                            if let Expr::Range(r) = &g.args[0] {
+                                if let (Some(a), Some(b), RangeLimits::HalfOpen(_)) = (&r.start, &r.end, &r.limits) {
+                                    let (lo, hi) = self.fx.rng(mc.span());
+                                    let txt = format!("slice_get_or_empty(&({}), {}, {})", self.fx.text(g.receiver.span()), self.fx.text(a.span()), self.fx.text(b.span()));
+                                    self.edit(lo, hi, txt, "R8");
+                                    return;
+                                }
+                            }
+                        }
+                    }
+                }
                 if name == "fill_bytes" {
                     if let Expr::Path(rp) = &*mc.receiver {
                         if let Some(id) = rp.path.get_ident() {
